@@ -184,6 +184,9 @@ pub mod par {
         pub fn for_each<F: Fn(T) + Sync + Send>(self, f: F) {
             run(self.items, f);
         }
+        pub fn try_for_each<E: Send, F: Fn(T) -> Result<(), E> + Sync + Send>(self, f: F) -> Result<(), E> {
+            run(self.items, f).into_iter().collect()
+        }
         pub fn any<F: Fn(T) -> bool + Sync + Send>(self, f: F) -> bool {
             run(self.items, f).into_iter().any(|b| b)
         }
@@ -203,6 +206,10 @@ pub mod par {
                     f(t)
                 }
             });
+        }
+        pub fn try_for_each<E: Send, F: Fn(T) -> Result<(), E> + Sync + Send>(self, f: F) -> Result<(), E> {
+            let pred = self.pred;
+            run(self.items, |t| if pred(&t) { f(t) } else { Ok(()) }).into_iter().collect()
         }
         pub fn map<U: Send, M: Fn(T) -> U + Sync + Send>(self, map: M) -> ParFilterMap<T, P, M> {
             ParFilterMap {
